@@ -68,7 +68,7 @@ fn pi(n: u128) -> OpCode {
 fn alphabets() -> Vec<(&'static str, Vec<OpCode>)> {
     use OpCode::*;
     let arith = vec![
-        pi(0), pi(1), pi(2), PushI(U256::MAX), PushI(U256::ONE << 255), Add, Sub, Mul, Div, Rem, And, Or, Xor, Not, Eql, Lt, Gt, Shl, Shr, Exp(0), Exp(1), Exp(255), Dup,
+        pi(0), pi(1), pi(2), PushI(U256::MAX), PushI(U256::ONE << 255), PushIC(U256::from(3u8)), PushIC(U256::MAX), Add, Sub, Mul, Div, Rem, And, Or, Xor, Not, Eql, Lt, Gt, Shl, Shr, Exp(0), Exp(1), Exp(255), Dup,
     ];
     let data = vec![
         pi(0), pi(1), pi(2), PushB(vec![]), PushB(vec![0xaa]), PushB(vec![0x11; 32]), VEmpty, BEmpty, VPush, VCons, VRef, VSet, VAppend, VSlice, VLength, BPush, BCons, BRef,
